@@ -6,23 +6,36 @@ import RodbusModel.Model.Retry
   granularity of whole requests.  The connection-state listener is a lock-step gate: the task is
   blocked inside `listener.update(..)` until the environment releases it.
 
-  Time is abstracted to "which timer fires next"; the peer is one of five behaviours per
+  Time is abstracted to "which timer fires next"; the peer is one of six behaviours per
   connection attempt.  Serial channels (`SerialChannelTask`) have the same structure with
   `PortState::{Disabled, Wait, Open, Shutdown}`.
+
+  TLS channels are the same task with `TcpTaskConnectionHandler::Tls`: the handshake runs inside
+  `try_connect_and_run` after the TCP connect succeeded, and its failure goes through
+  `handle_failed_connection` exactly like a refused connect (`Behaviour.hsfail`).  The command
+  queue also carries `Setting::DecodeLevel` (`Cmd.decode`), which changes the decode level and
+  nothing else, in every phase.
 -/
 namespace Rodbus.Life
 
-inductive Behaviour | refuse | close | garbage | silent | serve
+/-- `hsfail`: the TCP connect succeeds, the connection handler (TLS handshake) fails -/
+inductive Behaviour | refuse | close | garbage | silent | serve | hsfail
 deriving DecidableEq, Repr
+
+/-- the attempt ends in `handle_failed_connection`: `connect()` returned an error, or the
+    connection handler (TLS handshake) did -/
+def Behaviour.fails : Behaviour → Bool
+  | .refuse | .hsfail => true
+  | _ => false
 
 /-- what the user does through a handle -/
 inductive Action
-  | enable | disable | shutdown | dropAll | request (id : Nat)
+  | enable | disable | shutdown | dropAll | request (id : Nat) | setDecode (lvl : Nat)
 deriving DecidableEq, Repr
 
 /-- commands in the mpsc queue -/
 inductive Cmd
-  | enable | disable | shutdown | request (id : Nat)
+  | enable | disable | shutdown | request (id : Nat) | decode (lvl : Nat)
 deriving DecidableEq, Repr
 
 /-- `ClientState` -/
@@ -68,6 +81,8 @@ structure S where
   tcount : Nat := 0
   /-- the task has not terminated -/
   alive : Bool := true
+  /-- `ClientLoop::decode` (an opaque level number) -/
+  decode : Nat := 0
   log : List Ev := []
 deriving Repr
 
@@ -107,6 +122,7 @@ def advance : Nat → Phase → S → S × Pos
           | .request id => advance fuel .waitEnabled (s.emit (.done id "noconn"))
           | .enable => advance fuel .waitEnabled { s with enabled := true }
           | .disable => advance fuel .waitEnabled s
+          | .decode l => advance fuel .waitEnabled { s with decode := l }
           | .shutdown => (s, .gate .shutdown .finished)
     | .connect =>
       -- queued commands are served by `fail_requests` before the connect result is looked at
@@ -116,22 +132,22 @@ def advance : Nat → Phase → S → S × Pos
         match c with
         | .request id => advance fuel .connect (s.emit (.done id "noconn"))
         | .enable => advance fuel .connect s
+        | .decode l => advance fuel .connect { s with decode := l }
         | .disable => advance fuel .afterDisable { s with enabled := false }
         | .shutdown => (s, .gate .shutdown .finished)
       | [] =>
         if !s.handles then (s, .gate .shutdown .finished)
-        else
-          match s.cur with
-          | .refuse =>
-            let (d, r) := Retry.afterFailedConnect s.retry
-            let s := { s with retry := r }
-            (s, .gate (.waitFail d) .failFor)
-          | b => (s, .gate .connected (.sessionStart b))
+        else if s.cur.fails then
+          -- refused connect or failed handshake: `handle_failed_connection`
+          let (d, r) := Retry.afterFailedConnect s.retry
+          let s := { s with retry := r }
+          (s, .gate (.waitFail d) .failFor)
+        else (s, .gate .connected (.sessionStart s.cur))
     | .sessionStart b =>
       advance fuel (.session b) { s with retry := Retry.reset s.retry, tcount := 0 }
     | .session b =>
       match b with
-      | .refuse => (s, .idle (.session b))   -- not reachable
+      | .refuse | .hsfail => (s, .idle (.session b))   -- not reachable
       | .close | .garbage =>
         -- the peer's EOF / garbage ends the session
         let d := Retry.afterDisconnect s.retry
@@ -145,6 +161,7 @@ def advance : Nat → Phase → S → S × Pos
           let s := { s with queue := q }
           match c with
           | .enable => advance fuel (.session b) s
+          | .decode l => advance fuel (.session b) { s with decode := l }
           | .disable => advance fuel .afterDisable { s with enabled := false }
           | .shutdown => (s, .gate .shutdown .finished)
           | .request id =>
@@ -163,6 +180,7 @@ def advance : Nat → Phase → S → S × Pos
         match c with
         | .request id => advance fuel .failFor (s.emit (.done id "noconn"))
         | .enable => advance fuel .failFor s
+        | .decode l => advance fuel .failFor { s with decode := l }
         | .disable => advance fuel .afterDisable { s with enabled := false }
         | .shutdown => (s, .gate .shutdown .finished)
       | [] =>
@@ -180,6 +198,7 @@ def applyAction (s : S) (a : Action) : S :=
     | .disable => { s with queue := s.queue ++ [.disable] }
     | .shutdown => { s with queue := s.queue ++ [.shutdown] }
     | .request id => { s with queue := s.queue ++ [.request id] }
+    | .setDecode l => { s with queue := s.queue ++ [.decode l] }
     | .dropAll => { s with handles := false }
 
 def fuelFor (s : S) : Nat := 2 * s.queue.length + 8
